@@ -57,6 +57,9 @@ for d in sorted(glob.glob(os.path.join(root, "seeded", "*"))):
         json.dump(meta, open(mp, "w"), indent=1)
     what = ""
     rd = os.path.join(d, "AUTHOR_README.md")
+    if os.path.exists(os.path.join(d, "OBSOLETE.txt")):
+        rows.append((meta["id"], meta["property"], "obsolete on the current tree: a later repair removed the mechanism it broke (OBSOLETE.txt); before that: " + "; ".join(f"{p}: {v}" for p, v in sorted(r.items()))))
+        continue
     rows.append((meta["id"], meta["property"], "; ".join(f"{p}: {v}" for p, v in sorted(r.items()))))
 print("| seeded change | breaks | outcome of `./check` (quick tier) |\n|---|---|---|")
 for r in rows:
